@@ -13,6 +13,7 @@ def run(ctx):
     resolve_discipline(ctx)
     attribute_scans(ctx)
     attribute_table(ctx)
+    unresolved_is_deferred(ctx)
 
 
 def fb(ctx):
@@ -576,3 +577,40 @@ def attribute_table(ctx):
             check('extern-type', ['C02', 'C01'], f, roles, {'size': {'size'}, 'align': {'alignment'}})
         else:
             ctx.fail_closed(['C02'], 'R-TABLE', 'attr-table|extern-type', 'extern type registration not found', loc(f.span))
+
+
+# ------------------------------------------------------------------------------------------------
+def unresolved_is_deferred(ctx):
+    """a type whose size/alignment is not known *yet* (None from Type::size / Type::alignment / Region::size) must defer the
+    item (Ok(None)), never fail the build: whether it is known depends on the order in which the worklist is processed"""
+    P = ctx.prog
+    n = 0
+    SIZEQ = r'(types::Type::(size|alignment)|type_definition::Region::size)$'
+
+    def peel(e):
+        e = strip(e)
+        while e[0] == 'call' and (e[3].endswith('Context::with_context') or e[3].endswith('Context::context') or re.search(r'Option::<T>::(ok_or|ok_or_else)$', e[1])):
+            e = strip(e[2][0])
+        return e
+    for f in P.fns.values():
+        if f.raw.get('derived') or f.id.startswith('backends::'):
+            continue
+        gs = guards_of(f)
+        for g in gs:
+            if g.kind != 'reject' or g.pred[0] not in ('fails', 'is_none'):
+                continue
+            x = peel(g.pred[1])
+            if not (x[0] == 'call' and re.search(SIZEQ, x[1])):
+                continue
+            n += 1
+            subj = strip(x[2][0])
+            # a deferral test on the size/alignment of the same type must dominate
+            ok = False
+            for d in gs:
+                if d.kind == 'defer' and d.pred[0] == 'is_none':
+                    y = peel(d.pred[1])
+                    if y[0] == 'call' and re.search(SIZEQ, y[1]) and strip(y[2][0]) == subj and any(f.dominates(t, g.block) for (_, t) in d.others):
+                        ok = True
+            ctx.ob(['C10', 'C09'], 'R-ERR', 'unresolved-is-deferred|%s|%s' % (re.sub(r'\{closure#\d+\}', '{closure}', f.id), short(x[1])), ok,
+                   'turning a missing size/alignment into an error is preceded by a deferral test on the same type (so a not-yet-resolved type defers instead of failing): %s' % show(x)[:120], g.where())
+    ctx.ob(['C10'], 'R-ERR', 'unresolved-is-deferred|census', n >= 1, 'sites that turn a missing size/alignment into an error: %d (floor 1)' % n, nontrivial=False)
